@@ -8,7 +8,7 @@ tmpl=open(f'{V}/build/prompts/MUTANT2.tmpl').read()
 a,b=letters[0],letters[1]
 for pid in pids:
     p=props[pid]; prev=[]
-    for x in 'abcdefghij':
+    for x in 'abcdefghijklmn':
         mp=f'{V}/seeded/{pid}-{x}/meta.json'
         if os.path.exists(mp):
             m=json.load(open(mp))
